@@ -1,7 +1,10 @@
 (* C01 (stage C01Q) driver: reads the lines of harness/c01_quasi.cpp on stdin.  Every double is converted EXACTLY to a
-   canonical rational; the extracted model (C01q_model, Z mapped to Zarith) is run at the instance QEO = (value, running
-   rounding-error bound), so one evaluation delivers the exact H+ / r of the model and, entry by entry, the magnitude of
-   the summed terms the comparison is relative to.
+   canonical rational.  The extracted model (C01q_model, Z mapped to Zarith) is generic over its record of field
+   operations: it is run at the operations [eO] below = the extracted exact operations QcO on the value, paired with a
+   running rounding-error bound (first-order propagation, in units of the rounding unit: an exact input carries 0, every
+   operation adds the magnitude of its own result; kept as a float, it only scales the tolerance).  One evaluation thus
+   delivers the exact H+ / r of the model and, entry by entry, the magnitude of the summed terms the comparison is
+   relative to:  |implementation - model| <= 1e-9 * bound  (the rounding unit is 2^-53).
 
      MISMATCH <what> RUN <id> EV <k> ...   the implementation's H_after / r / history / initial H leaves the model by more
                                            than 1e-9 * bound  (which update a solver id applies is part of the tie)
@@ -12,6 +15,7 @@
         posdef     H_before positive definite and dx.dg > 0  =>  H_after positive definite (exact LDL' pivots, with the
                    rounding margin added on the diagonal)     (bfgs, dfp, hoshino, fletcher on its dfp/bfgs branches)
         descent    every stored pair has s.y > 0, g <> 0  =>  g . r > 0   (lbfgs; r = H g, the direction is -r)
+        history-bound  the history is the most recent min(solver::lbfgs::history, available) pairs   (lbfgs)
      MODEL-DONE checked=<n> mismatches=<m> <counters>
 
    Compiled by tools/checks/c01.py after `module ZZ = Z  open C01q_model` (the extracted module shadows Zarith's Z). *)
@@ -24,6 +28,9 @@ let pfail = ref 0
 let printed = ref 0
 let counters : (string, int) Hashtbl.t = Hashtbl.create 32
 let count k = Hashtbl.replace counters k (1 + (try Hashtbl.find counters k with Not_found -> 0))
+let () = List.iter (fun k -> Hashtbl.replace counters k 0)
+    ["updates_nonpositive_curvature"; "lbfgs_events_with_nonpositive_curvature_pair"; "posdef_skipped_before_not_pd";
+     "ambiguous_branch_skipped"; "updates_nonfinite_output_skipped"; "updates_nonfinite_input_skipped"]
 let report kind what id k detail =
   (if kind = "MISMATCH" then incr mism else incr pfail);
   incr printed;
@@ -40,7 +47,21 @@ let finite_all l = List.for_all Float.is_finite l
 let qc_of_q (x : Q.t) : qc = { qnum = Q.num x; qden = Q.den x }
 let q_of_qc (x : qc) : Q.t = Q.make x.qnum x.qden
 let qz = qc_of_q Q.zero
-let inj (x : float) : qE = (qc_of_q (Q.of_float x), qz)        (* an exact input: error bound 0 *)
+(* value, |value| as a float, running error bound *)
+type et = { v : qc; a : float; m : float }
+let fabs_qc (x : qc) : float = Float.abs (Q.to_float (q_of_qc x))
+let mk v m = { v; a = fabs_qc v; m }
+let eO : et fops =
+  { f0 = mk qcO.f0 0.0; f1 = mk qcO.f1 0.0;
+    fadd = (fun x y -> let v = qcO.fadd x.v y.v in let a = fabs_qc v in { v; a; m = x.m +. y.m +. a });
+    fsub = (fun x y -> let v = qcO.fsub x.v y.v in let a = fabs_qc v in { v; a; m = x.m +. y.m +. a });
+    fmul = (fun x y -> let v = qcO.fmul x.v y.v in let a = fabs_qc v in { v; a; m = x.m *. y.a +. x.a *. y.m +. a });
+    fopp = (fun x -> { x with v = qcO.fopp x.v });
+    fdiv = (fun x y -> let v = qcO.fdiv x.v y.v in let a = fabs_qc v in
+             let iy = 1.0 /. y.a in { v; a; m = x.m *. iy +. x.a *. y.m *. iy *. iy +. a });
+    finv = (fun y -> let v = qcO.finv y.v in let a = fabs_qc v in { v; a; m = y.m *. a *. a +. a });
+    fcmp = (fun x y -> qcO.fcmp x.v y.v) }
+let inj (x : float) : et = { v = qc_of_q (Q.of_float x); a = Float.abs x; m = 0.0 }       (* an exact input: error bound 0 *)
 let injv = List.map inj
 let injm = List.map injv
 let qv = List.map Q.of_float
@@ -63,21 +84,21 @@ let fields hd =
 let fld fs k = try List.assoc k fs with Not_found -> "-"
 
 (* |impl - value| <= 1e-9 * bound, exactly *)
-let close (impl : float) ((v, m) : qE) : bool =
-  Float.is_finite impl &&
-  Q.leq (Q.abs (Q.sub (Q.of_float impl) (q_of_qc v))) (Q.mul tol (q_of_qc m))
-let first_bad_m (impl : float list list) (model : qE list list) =
+let bound_q (e : et) : Q.t = if Float.is_finite e.m then Q.mul tol (Q.of_float (e.m *. 1.0000001)) else Q.of_float Float.max_float
+let close (impl : float) (e : et) : bool =
+  Float.is_finite impl && Q.leq (Q.abs (Q.sub (Q.of_float impl) (q_of_qc e.v))) (bound_q e)
+let first_bad_m (impl : float list list) (model : et list list) =
   let bad = ref None in
   List.iteri (fun i (ri, rm) ->
       List.iteri (fun j (x, e) -> if !bad = None && not (close x e) then bad := Some (i, j, x, e)) (List.combine ri rm))
     (List.combine impl model);
   !bad
-let first_bad_v (impl : float list) (model : qE list) =
+let first_bad_v (impl : float list) (model : et list) =
   let bad = ref None in
   List.iteri (fun i (x, e) -> if !bad = None && not (close x e) then bad := Some (i, x, e)) (List.combine impl model);
   !bad
 let shape_ok n (m : 'a list list) = List.length m = n && List.for_all (fun r -> List.length r = n) m
-let describe (x : float) ((v, m) : qE) = Printf.sprintf "impl=%s model=%s bound=%s" (hex x) (qstr (q_of_qc v)) (qstr (q_of_qc m))
+let describe (x : float) (e : et) = Printf.sprintf "impl=%s model=%s bound=%.6g" (hex x) (qstr (q_of_qc e.v)) e.m
 
 (* ---- independent exact oracles (Zarith Q, no model function) ---------------------------------------------------- *)
 let qdot a b = List.fold_left2 (fun acc x y -> Q.add acc (Q.mul x y)) Q.zero a b
@@ -133,7 +154,7 @@ let is_identity (a : float list list) =
   !ok
 
 (* a decision is numerically ambiguous when the compared quantity is within its rounding bound of the threshold *)
-let near ((v, m) : qE) (c : Q.t) = Q.leq (Q.abs (Q.sub (q_of_qc v) c)) (Q.mul tol (q_of_qc m))
+let near (e : et) (c : Q.t) = Q.leq (Q.abs (Q.sub (q_of_qc e.v) c)) (bound_q e)
 
 let handle_qu id k n rest =
   match List.map String.trim (split_str " | " rest) with
@@ -151,7 +172,7 @@ let handle_qu id k n rest =
       (* -- the chain: H_before of the first update is the initialisation, later the previous H_after or a restart -- *)
       (if ki = 0 then begin
           if !cur_init = "scaled" then begin
-            let h = scaled_identity qEO (nat_of_int n) s y in
+            let h = scaled_identity eO (nat_of_int n) s y in
             match first_bad_m h0 h with
             | Some (i, j, x, e) -> report "MISMATCH" "initial-scaled" id k (Printf.sprintf "H_before[%d,%d] %s" i j (describe x e))
             | None -> count "initial_scaled_checked"
@@ -171,15 +192,15 @@ let handle_qu id k n rest =
       else begin
         (* -- correspondence: the update this solver id applies -- *)
         let r = inj !cur_r in
-        let model = quasi_update qEO kind r hq s y in
+        let model = quasi_update eO kind r hq s y in
         let unchanged = (h1 = h0) in
         let bad = first_bad_m h1 model in
         let branch = ref "" in
         (match kind with
          | KSR1 -> if unchanged then (branch := "refused"; count "sr1_refused") else (branch := "applied"; count "sr1_applied")
          | KFLETCHER ->
-           let phi = fletcher_phi qEO hq s y in
-           branch := (if phi_lt0 qEO phi then "dfp" else if phi_gt1 qEO phi then "bfgs" else "sr1");
+           let phi = fletcher_phi eO hq s y in
+           branch := (if phi_lt0 eO phi then "dfp" else if phi_gt1 eO phi then "bfgs" else "sr1");
            count ("fletcher_" ^ !branch)
          | _ -> ());
         let ambiguous =
@@ -187,20 +208,20 @@ let handle_qu id k n rest =
           | None, _ -> false
           | Some _, KSR1 ->
             (* the safeguard compares |denom| with r |dx| |v|: ambiguous when the squares are within their bounds *)
-            let v = vsub qEO s (mv qEO hq y) in
-            let d = dot qEO v y in
-            let lhs = qEO.fmul d d and rhs = qEO.fmul (qEO.fmul (qEO.fmul r r) (dot qEO s s)) (dot qEO v v) in
-            let diff = qEO.fsub lhs rhs in
-            let other = if sr1_apply qEO r hq s y then hq else sr1_plain qEO hq s y in
+            let v = vsub eO s (mv eO hq y) in
+            let d = dot eO v y in
+            let lhs = eO.fmul d d and rhs = eO.fmul (eO.fmul (eO.fmul r r) (dot eO s s)) (dot eO v v) in
+            let diff = eO.fsub lhs rhs in
+            let other = if sr1_apply eO r hq s y then hq else sr1_plain eO hq s y in
             near diff Q.zero && first_bad_m h1 other = None
           | Some _, KFLETCHER ->
             (* phi = sy / (sy - yHy): the branch is ambiguous when phi is within its bound of 0 or 1, or when the
                denominator is within its bound of 0 (phi jumps from -inf to +inf) *)
-            let sy = dot qEO s y and yhy = dot qEO (vm qEO y hq) y in
-            let den = qEO.fsub sy yhy in
-            let phi = fletcher_phi qEO hq s y in
+            let sy = dot eO s y and yhy = dot eO (vm eO y hq) y in
+            let den = eO.fsub sy yhy in
+            let phi = fletcher_phi eO hq s y in
             let amb = near den Q.zero || near phi Q.zero || near phi Q.one || near sy Q.zero || near yhy Q.zero in
-            amb && List.exists (fun c -> first_bad_m h1 c = None) [dfp qEO hq s y; bfgs qEO hq s y; sr1_plain qEO hq s y]
+            amb && List.exists (fun c -> first_bad_m h1 c = None) [dfp eO hq s y; bfgs eO hq s y; sr1_plain eO hq s y]
           | _ -> false in
         (match bad with
          | Some (i, j, x, e) when not ambiguous ->
@@ -210,7 +231,7 @@ let handle_qu id k n rest =
          | None -> ());
         (* -- the proved properties on the implementation's own numbers -- *)
         let qs = qv dx and qy = qv dg and q0 = qm h0 and q1 = qm h1 in
-        let bound = List.map (List.map (fun (_, m) -> q_of_qc m)) model in
+        let bound = List.map (List.map (fun e -> if Float.is_finite e.m then Q.of_float (e.m *. 1.0000001) else Q.of_float Float.max_float)) model in
         let sy = qdot qs qy in
         let updated = not unchanged in
         (* secant: H_after dg = dx *)
@@ -274,6 +295,14 @@ let handle_ld id k n h rest =
             else begin
               let newest = List.nth hist (h - 1) in
               let expect = lbfgs_push (ZZ.of_int !cur_history) p newest in
+              (* kernel-free mirror of C01Q_lbfgs_history (the model's test `ss.size() > history` is regenerated from the
+                 source): the history holds the most recent min(history, available) pairs *)
+              let full = p @ [newest] in
+              let reference = if List.length full > !cur_history then List.tl full else full in
+              if reference <> hist then
+                report "PROPFAIL" "history-bound" id k
+                  (Printf.sprintf "h=%d previous=%d solver::lbfgs::history=%d: the history is not the most recent min(history, previous+1) pairs"
+                     h (List.length p) !cur_history);
               if expect = hist then count "history_checked"
               else report "MISMATCH" "history" id k
                   (Printf.sprintf "h=%d previous=%d bound=%d: not (previous ++ [newest]) truncated from the front" h (List.length p) !cur_history)
@@ -283,12 +312,13 @@ let handle_ld id k n h rest =
       prev_hist := Some hist; prev_ld_k := ki;
       if not (finite_all g && List.for_all finite_all ss && List.for_all finite_all ys) then count "directions_nonfinite_input_skipped"
       else if not (finite_all r) then count "directions_nonfinite_output_skipped"
+      else if n * h > 96 && not (ki < 6 || ki mod 6 = 0) then count "lbfgs_directions_recorded_not_recomputed"
       else begin
         incr checked;
         count "lbfgs_directions_checked";
         Hashtbl.replace counters "lbfgs_max_history" (max h (try Hashtbl.find counters "lbfgs_max_history" with Not_found -> 0));
         let qhist = List.map (fun (s, y) -> (injv s, injv y)) hist in
-        let model = two_loop qEO qhist (injv g) in
+        let model = two_loop eO qhist (injv g) in
         (match first_bad_v r model with
          | Some (i, x, e) -> report "MISMATCH" "two-loop" id k (Printf.sprintf "h=%d r[%d] %s" h i (describe x e))
          | None -> ());
@@ -300,7 +330,7 @@ let handle_ld id k n h rest =
           count "descent_checked";
           let qg = qv g in
           let gr = qdot qg (qv r) in
-          let slack = List.fold_left2 (fun acc gi (_, m) -> Q.add acc (Q.mul (Q.abs gi) (q_of_qc m))) Q.zero qg model in
+          let slack = List.fold_left2 (fun acc gi e -> Q.add acc (Q.mul (Q.abs gi) (Q.of_float (if Float.is_finite e.m then e.m *. 1.0000001 else Float.max_float)))) Q.zero qg model in
           if Q.leq gr (Q.neg (Q.mul tol slack)) || (Q.sign slack = 0 && Q.sign gr <= 0) then
             report "PROPFAIL" "descent" id k (Printf.sprintf "h=%d all s.y > 0 but g.r=%s is not positive (-r is not a descent direction)" h (qstr gr))
         end
